@@ -55,9 +55,9 @@ type costJob struct {
 	Limit  uint64 `json:"limit"`  // MaxArraySizeBytes, 0 = default
 	Reps   int    `json:"reps"`   // timing repetitions (min is reported)
 	Label  string `json:"label"`
-	Relax  bool   `json:"relax"`  // scaling documents: object / marker count limits out of the way
-	Bare   bool   `json:"bare"`   // decode into a receiver without rules
-	Tmpl   string `json:"tmpl"`   // non-empty: unmarshal into this template instead of decoding
+	Relax  bool   `json:"relax"`   // scaling documents: object / marker count limits out of the way
+	Bare   bool   `json:"bare"`    // decode into a receiver without rules
+	Tmpl   string `json:"tmpl"`    // non-empty: unmarshal into this template instead of decoding
 	MaxSec int    `json:"max_sec"` // stop the job after this many seconds (0 = jobTimeLimit)
 }
 
